@@ -343,6 +343,10 @@ async def _interp(run: Run, sdef: dict, ctx: Context, ev: Any, rn: int) -> Any:
                 snap_tys = [ET.TY_ID.get(type(e), -1) for e in _SWC.get().state.collected_events.get(bufname or "default", [])]
             except Exception:
                 snap, snap_tys = None, None
+            for _rep in range(max(int(act[3]) if len(act) > 3 else 1, 1) - 1):
+                # the same collect_events call made again by one invocation (e.g. in a loop): every call that
+                # still needs the event appends one more AddCollectedEvent for the same buffer to this result
+                ctx.collect_events(ev, [ET.TYPES[t] for t in act[1]], buffer_id=bufname)
             got = ctx.collect_events(ev, [ET.TYPES[t] for t in act[1]], buffer_id=bufname)
             run.trace.steps.append(("collect_call", name, uid, rn, asyncio.get_event_loop().time(),
                                     {"expected": list(act[1]), "buf": bufname or "default", "snapshot": snap, "snapshot_tys": snap_tys,
